@@ -77,6 +77,10 @@ class BuildMachine(Machine):
         )
 
     def reset(self, cfg):
+        if cfg.get("versions"):
+            # lines whose validity depends on the software version: port names of 135 / 521 /
+            # 15001 / 15002 (known to IOS 16, not to IOS 15)
+            cfg = dict(cfg, version_ports=True, names=True)
         self.cfg = cfg
         self.ids.install()
         self.memo.install()
